@@ -20,6 +20,7 @@ type Exec struct {
 	Code   int    // exit status the CLI would produce for Err
 	ErrStr string // Err.Error() or ""
 	Aux    map[string]string
+	Races  []RaceReport
 }
 
 func (x *Exec) Choices() []int {
@@ -115,6 +116,7 @@ type Explorer struct {
 
 	EnvChoices bool
 	NoPruneFS  bool
+	NoConfirm  bool // do not demand 5 identical replays (race reports may be rate limited by the detector)
 
 	Stats      Stats
 	Violations []Violation
@@ -126,6 +128,7 @@ type Explorer struct {
 	states   map[uint64]struct{}
 	outcomes map[uint64]int
 	cut      bool
+	sticky   map[string]Violation
 	topCount int
 	sigSeen  map[string]int
 }
@@ -136,6 +139,7 @@ func (e *Explorer) Explore() {
 	start := time.Now()
 	e.Goals = map[string]bool{}
 	e.sigSeen = map[string]int{}
+	e.sticky = map[string]Violation{}
 	final := e.Bound
 	// iterative deepening: the cheap low bounds discover the shared-object set W (each discovery
 	// restarts only the current, cheap pass); only the final pass is reported.
@@ -205,6 +209,17 @@ func (e *Explorer) Explore() {
 			}
 		}
 	}
+	// race reports are emitted once per process by the detector: keep them across passes
+	have := map[string]bool{}
+	for _, v := range e.Violations {
+		have[v.Sig] = true
+	}
+	for sig, v := range e.sticky {
+		if !have[sig] {
+			e.Violations = append(e.Violations, v)
+			e.sigSeen[sig]++
+		}
+	}
 	e.Stats.Completed = completed
 	e.Stats.WallS = time.Since(start).Seconds()
 }
@@ -269,6 +284,9 @@ func (e *Explorer) explore(prefix []int, depth int) {
 	}
 	if x.Res.Pruned {
 		e.Stats.Pruned++
+		if len(x.Races) > 0 && e.Check != nil {
+			e.observeRaces(x)
+		}
 	} else {
 		mine := e.NShards <= 1 || depth > 0 || e.Shard == 0
 		if mine {
@@ -355,7 +373,10 @@ func (e *Explorer) observe(x *Exec) {
 			}
 		}
 		v.Confirm = conf
-		if conf < 5 {
+		if e.NoConfirm {
+			e.sticky[v.Sig] = v
+		}
+		if conf < 5 && !e.NoConfirm {
 			e.HarnessErr = fmt.Sprintf("scenario %s: violation %s reproduced only %d/5 times from its choice vector %v (uncaptured nondeterminism)", e.Name, v.Sig, conf, v.Choices)
 			return
 		}
@@ -404,4 +425,23 @@ func firstLine(s string) string {
 
 func vschedCfg(prefix []int, env bool) vsched.Config {
 	return vsched.Config{Prefix: prefix, EnvChoices: env, Watchdog: 120 * time.Second}
+}
+
+
+// observeRaces records race reports of an execution that was abandoned by pruning (the report
+// was produced by the prefix that did run).
+func (e *Explorer) observeRaces(x *Exec) {
+	for _, r := range x.Races {
+		v := V("C18", "race", r.Sig, "ThreadSanitizer report in an explored schedule:\n"+r.Text)
+		e.sigSeen[v.Sig]++
+		if e.sigSeen[v.Sig] > 1 {
+			continue
+		}
+		v.Scenario = e.Name
+		v.Choices = x.Choices()
+		v.W = append([]uint64(nil), e.w...)
+		v.Trace = traceLines(x)
+		e.Violations = append(e.Violations, v)
+		e.sticky[v.Sig] = v
+	}
 }
